@@ -115,6 +115,12 @@ theorem createTable_view (slack : Nat → Nat) (s : Pkg) (hI : Inv slack s) (hS 
   | some k => simp [hce] at h
   | none =>
   simp only [hce] at h
+  cases hroom : catalogRoom s name cols with
+  | err k => simp [hroom] at h
+  | panic w => simp [hroom] at h
+  | ok u =>
+  cases u
+  simp only [hroom] at h
   have hf := createError_facts s name cols hce
   have hnew : ∀ x ∈ s.tables, x.name ≠ name := findTable_none_ne s name hf.fresh
   have hpos : 0 < (⟨name, cols, s.pool.longRefs⟩ : Table).rowSize := rowSize_pos _ hf.nonempty
